@@ -25,6 +25,7 @@ MODEL_SWITCHES = [
     ("MC_Conc5", "MC_Conc5_bug2.cfg", "DescentOK", "child pointer used without re-validating the upper border"),
     ("MC_Conc4", "MC_Conc4_bug6.cfg", "ScanOK", "F17: scan returns a key twice after unlink + re-insert"),
     ("MC_Conc4", "MC_Conc4_bug7.cfg", "ScanOK", "cursor keeps its rank when the permutation of its border changed"),
+    ("MC_Conc4", "MC_Conc4_bug8.cfg", "ScanOK", "right-to-left scan starting from a fresh version instead of the one of the validated descent (seeds C04b / C04c)"),
     ("YkEpoch", "MC_Epoch_bug.cfg", "SafeStrong", "F5: two-step enter"),
     ("YkLife", "MC_Life_bug.cfg", "ThreadsAliveWhileRunning", "F4: stop flags not cleared"),
     ("MC_Tree", "MC_Tree_scan5_f2.cfg", "ScanOK", "F2: scan uses l_key with INF"),
